@@ -109,7 +109,10 @@ def gen_robots(rng, site, agent_token):
                 lines.append(pad)
             lines.append('%s: %s\n' % (k, v))
         lines.append('\n')
-    return ''.join(lines), pad_position
+    text = ''.join(lines)
+    if rng.random() < 0.4:
+        text = text.rstrip('\n')       # file ends right after its last rule, no final newline
+    return text, pad_position
 
 
 def gen_case(rng):
@@ -149,9 +152,16 @@ def run_case(case, part):
         robots_text[s.host], pad_positions[s.host] = gen_robots(rr, s, token)
     mode = case['mode']
 
+    robots_hits = {}
+
     def robots_handler(req):
         host = req['host'].lower().replace(':80', '')
         text = robots_text.get(host, '')
+        robots_hits[host] = robots_hits.get(host, 0) + 1
+        if robots_hits[host] > 60:
+            # circuit breaker: lets a crawl that would retry robots.txt forever come to an end; the oracle then
+            # reports the unbounded refetching from the log
+            return {'status': 404, 'reason': 'Not Found', 'headers': [('Content-Type', 'text/plain')], 'body': b'breaker'}
         if req['target'] == '/robots-real.txt':
             return {'status': 200, 'headers': [('Content-Type', 'text/plain')], 'body': text.encode()}
         if mode == '404' or mode == 'nofollow':
@@ -160,7 +170,10 @@ def run_case(case, part):
             return {'status': 503, 'reason': 'Service Unavailable', 'headers': [('Content-Type', 'text/plain')],
                     'body': b'later'}
         if mode == 'redirect':
-            return {'status': 301, 'reason': 'Moved', 'headers': [('Location', '/robots-real.txt')], 'body': b''}
+            # the redirect itself carries a body (sometimes much longer than the final file)
+            filler = [b'', b'<html>moved</html>', b'<html><body>' + b'Allow: /\nmoved to /robots-real.txt ' * 120 + b'</body></html>']
+            return {'status': 301, 'reason': 'Moved', 'headers': [('Location', '/robots-real.txt')],
+                    'body': filler[case['robots_seed'] % 3]}
         return {'status': 200, 'headers': [('Content-Type', 'text/plain')], 'body': text.encode()}
     handlers = {s.host: sitegen.make_handler(s, robots=robots_handler) for s in sites}
 
@@ -268,6 +281,9 @@ def judge(case, sites, robots_text, pad_positions, res, rows, log, part):
                     part.count('nofollow_respected')
                 part.nontrivial_case('nofollow/{}/{}'.format(case['site_seed'], case['robots_seed']))
         elif mode == '5xx':
+            if len(robots_reqs) > 2 * 2 + 2:
+                # tries is 2 and only the start URL of this origin can be known: a handful of robots.txt fetches at most
+                part.violation('robots-txt-refetched-without-bound-after-5xx', {'host': s.host, 'times': len(robots_reqs)}, replay)
             if page_reqs:
                 part.violation('page-requested-although-robots-txt-5xx', {'host': s.host, 'paths': [e['target'] for e in page_reqs][:4]},
                                replay)
